@@ -1001,11 +1001,79 @@ def replay(ctx, payload):
             shape[range(n, 2 * n), range(n)] = -D
             return bool(err(R.T @ C @ R - A) <= TOL and err(R @ R.T - np.eye(2 * n)) <= TOL and err(C - shape) <= TOL
                         and D.min() >= -TOL and not np.any(np.diff(D) < -TOL))
+        def carr(x):
+            return None if x is None else np.array([[complex(e[0], e[1]) for e in r] for r in x])
+        if 'history' in inp:
+            # re-execute the recorded history on one object, checking after every step
+            QH = of.ops.QuadraticHamiltonian
+            s = Stream('replay', '')
+            sr, mr = [], []
+            H = None
+            for h in inp['history']:
+                op = h['op']
+                if op == 'new':
+                    M, D, cc, mu = carr(h['M']), carr(h['Delta']), h['const'], h['mu']
+                    n = M.shape[0]
+                    H = QH(M.copy(), None if D is None else D.copy(), cc, mu)
+                    Mc, Dc = M - mu * np.eye(n), D
+                elif op == 'add_chemical_potential':
+                    H.add_chemical_potential(h['value'])
+                    Mc = Mc - h['value'] * np.eye(n)
+                elif op == 'constant=':
+                    H.constant = h['value']
+                    cc = h['value']
+                elif op.startswith('combined_hermitian_part'):
+                    i, j, x = h['i'], h['j'], h['value']
+                    H.combined_hermitian_part[i, j] += x
+                    H.combined_hermitian_part[j, i] += x
+                    H.combined_hermitian_part[i, i] -= x
+                    Mc = Mc.copy()
+                    Mc[i, j] += x
+                    Mc[j, i] += x
+                    Mc[i, i] -= x
+                elif 'H2' in op:
+                    M2, D2 = carr(h['M2']), carr(h['Delta2'])
+                    H2 = QH(M2.copy(), None if D2 is None else D2.copy(), h['const2'], h['mu2'])
+                    sg = 1.0 if '+' in op else -1.0
+                    if op == 'H += H2':
+                        H += H2
+                    elif op == 'H -= H2':
+                        H -= H2
+                    elif op == 'H = H + H2':
+                        H = H + H2
+                    else:
+                        H = H - H2
+                    Mc = Mc + sg * (M2 - h['mu2'] * np.eye(n))
+                    if D2 is not None:
+                        Dc = (np.zeros((n, n), dtype=complex) if Dc is None else Dc) + sg * D2
+                    cc = cc + sg * h['const2']
+                else:
+                    a = h['a']
+                    if op == 'H *= a':
+                        H *= a
+                    else:
+                        H = a * H
+                    Mc, Dc, cc = a * Mc, (None if Dc is None else a * Dc), a * cc
+                check_obj(ctx, s, {'kind': 'history'}, H, Mc.copy(), None if Dc is None else Dc.copy(), cc, sr, mr, 64)
+            ans = ctx.driver.run([r for _, r, _, _ in sr])
+            for (_, _, w, _), a in zip(sr, ans):
+                sp = np.array([rat_float(x) for x in a['spectrum']])
+                if sp.shape != w.shape or err(sp - w) > TOL:
+                    return False
+            return not [x for x in s.violations if classify(x) is None]
         if 'M' in inp:
             M, D, const, mu = ham_from_case(of, inp)
             s = Stream('replay', '')
             sr, mr = [], []
-            check_ham(ctx, s, {k: inp[k] for k in ('kind', 'n', 'M', 'Delta', 'const', 'mu')}, M, D, const, mu, sr, mr, 64)
+            if inp.get('kind') == 'types':
+                n = M.shape[0]
+                Mt = typed(M, inp['M_type'])
+                Dt = None if D is None else typed(D, inp['Delta_type'])
+                H = of.ops.QuadraticHamiltonian(Mt, Dt, typed_scalar(const, inp['const_type']), typed_scalar(mu, inp['mu_type']))
+                check_obj(ctx, s, {'kind': 'types', 'single_precision': inp.get('single_precision')}, H, M - mu * np.eye(n), D,
+                          const, sr, mr, 64)
+            else:
+                check_ham(ctx, s, {k: inp[k] for k in ('kind', 'n', 'M', 'Delta', 'const', 'mu')}, M, D, const, mu, sr, mr, 64)
             ans = ctx.driver.run([r for _, r, _, _ in sr])
             for (_, _, w, _), a in zip(sr, ans):
                 sp = np.array([rat_float(x) for x in a['spectrum']])
